@@ -1,5 +1,5 @@
 (* C03 — generated types follow the documented field/arity mapping. *)
-From PegV Require Import Utf8 State Syntax Fields FieldsFacts GetFieldsFacts TypesFacts Literals Model Spec ShapeFacts Arity Compile Extracted.
+From PegV Require Import Utf8 Utf8Facts State Terminals Syntax Fields FieldsFacts GetFieldsFacts TypesFacts Literals Model Spec ShapeFacts Arity Compile Sim Conform ConformX Extracted.
 
 Theorem C03_facts :
   fcfg_sound Extracted.fcfg = true /\
@@ -107,3 +107,23 @@ Proof.
         split; [reflexivity|]. destruct (fd_arity fd); try discriminate; reflexivity.
 Qed.
 Print Assumptions C03_rule_kinds.
+
+(* The value plumbing of the generated code agrees with the declarations: the
+   model of the generated parser never reaches a shape mismatch (a field missing
+   from an arm's result, a One field without a value, extend on a non-Vec, a
+   binding that is not in the struct) - for every grammar without
+   @memoize/@leftrec, every input and every recursion bound.  These are the
+   places where rustc would reject the code, or a template would silently build
+   a value of another type than the one declared. *)
+Theorem C03_templates_agree_with_declarations :
+  forall (ustate : Type) (hk : hooks ustate) (shk : shooks) (g : grammar),
+    pure_hooks ustate hk shk -> plain_grammar g ->
+    forall fuel rule_name cs u, all_scalar cs ->
+      fst (m_parse ustate Extracted.scfg Extracted.tcfg Extracted.fcfg Extracted.rcfg hk g
+                   fuel rule_name (encode_str cs) u) <> MPanic PanicShape.
+Proof.
+  intros ustate hk shk g Hp Hg fuel rule_name cs u Hs E.
+  pose proof (conform_x ustate hk shk g Hp Hg fuel rule_name cs u Hs) as C.
+  rewrite E in C. cbn in C. apply C. reflexivity.
+Qed.
+Print Assumptions C03_templates_agree_with_declarations.
